@@ -118,6 +118,13 @@ def texts(draw, enc, max_lines=6, nonempty=True):
 
         parts[idxs[min(i, len(idxs) - 1)]] = ch * k
 
+        if i == 0 and draw(st.booleans()):
+            # long first line ending in CRLF
+            parts = [('\r\n' if p_ in TERMS else p_) for p_ in parts]
+
+            if len(parts) == 1:
+                parts.append('\r\n')
+
     # fixed-width multi-byte codecs: a character pair whose code units
     # look like an encoded LF across the character boundary, placed before
     # the first real line break
